@@ -403,6 +403,10 @@ func (env *Zlisp) EvalCallExpression(expr Sexp) (Sexp, error) {
 	sfun := env.MakeFunction("callExprEval", 0, false, ZlispFunction(gen.instructions), expr)
 	sfun.parent = callState.curfunc
 
+	// a marker below the expression's value: if the expression leaves no
+	// value at all (a bare (return), an empty begin), Run must not take an
+	// operand of the enclosing call instead.
+	env.datastack.PushExpr(SexpMarker)
 	env.pc = -2
 	if err := env.CallFunction(sfun, 0); err != nil {
 		env.restoreControlState(callState)
@@ -414,6 +418,9 @@ func (env *Zlisp) EvalCallExpression(expr Sexp) (Sexp, error) {
 		return SexpNull, err
 	}
 	env.restoreControlState(callState)
+	if res == SexpMarker {
+		return SexpNull, nil
+	}
 	return res, nil
 }
 
